@@ -549,6 +549,38 @@ def exh_alp():
             yield inst("alp", alp_text(nr, [(0, l1, 0), (t2, l2, 0)], [[sp]]), "exhaustive", 2)
 
 
+# ------------------------------------------------------------------------------------------------ corpus
+# fixed instances that are always run (every width / thread configuration): the smallest witnesses of the defects found
+# with this check, plus hand-crafted probes of the suspected ones (knapsack f64 rough bound)
+def corpus(example):
+    C = {
+        "knapsack": [
+            ("core", knapsack_text(8, [(100, 1), (90, 10), (63, 7), (62, 7)])),      # rub floor((7/10)*90) = 62 < 63
+            ("core", knapsack_text(14, [(63, 7), (90, 10), (63, 7), (62, 7)])),
+            ("core", knapsack_text(2, [(98, 49), (2, 1), (2, 1), (1, 1)])),          # rub floor((1/49)*98) = 1 < 2
+        ],
+        "misp": [("negative-weight", misp_text(3, {0: 5, 1: -6, 2: 7}, [(1, 2), (2, 0)]))],          # optimum 7, width 1 prints 5
+        "max2sat": [
+            ("core", max2sat_text(3, [(1, 1, 2, False), (1, -1, -1, False), (2, -2, 3, False)])),   # optimum 4, width 1 prints 3
+            ("core", max2sat_text(4, [(10, -1, -2, False), (7, -3, 4, False), (9, -1, 1, False), (12, 3, 2, False), (8, -4, -4, False),
+                                      (10, -4, -1, False), (3, -3, -3, True), (6, -2, 1, False), (2, -3, -1, False), (1, 1, 1, False)])),  # 61, width 2 prints 67
+            ("duplicate-clause", max2sat_text(2, [(4, 1, 2, False), (11, -2, 2, False), (9, 1, 2, False)])),
+        ],
+        "mcp": [
+            ("core", mcp_text(4, [(0, 2, -1), (1, 2, -1), (1, 3, -1), (2, 3, 1)])),                  # max cut 0, width 3 prints 1
+            ("core", mcp_text(5, [(4, 1, 3), (1, 2, 0), (1, 3, -2), (1, 0, -6), (2, 3, -2), (4, 0, -2), (2, 0, -1), (4, 3, -1), (2, 4, 1)])),  # 1, width 2 prints 2
+            ("duplicate-edge", mcp_text(2, [(1, 0, -6), (0, 1, 2)])),
+        ],
+        "lcs": [("core", lcs_text(["abaaaa", "baaaba"], 2)),                                          # lcs 5, width 1 prints 4
+                ("core", lcs_text(["baaabab", "aabbbbab"], 2))],
+        "sop": [("core", sop_text([[0, 23, 28, 29], [-1, 0, -1, 28], [-1, -1, 0, 15], [-1, -1, -1, 0]]))],   # contradictory precedences
+        "psp": [("core", psp_text(2, [[0, 2], [9, 0]], [8, 8], [[1, 1], [1, 1]]))],                 # infeasible
+        "alp": [("core", alp_text(1, [(0, 0, 0), (0, 0, 0)], [[1]])),                                # infeasible
+                ("nonagreeable-windows", alp_text(1, [(0, 100, 0), (1, 5, 0)], [[10]]))],            # optimum 11, the DP finds nothing
+    }
+    return [inst(example, text, "corpus", len(text), cls) for (cls, text) in C.get(example, [])]
+
+
 # ------------------------------------------------------------------------------------------------ dispatch
 GENERATORS = {"knapsack": gen_knapsack, "misp": gen_misp, "max2sat": gen_max2sat, "mcp": gen_mcp, "lcs": gen_lcs,
               "sop": gen_sop, "tsptw": gen_tsptw, "srflp": gen_srflp, "talentsched": gen_talentsched, "psp": gen_psp,
